@@ -158,7 +158,10 @@ async fn check_query(run: &mut Run, ctx: &SessionContext, sql: &str, plan_sx: &s
                     break;
                 }
             }
-            run.oracle(bad.is_none(), &format!("C30 dataframe-schema-vs-batches :: {sql}"), &format!("{}; declared {dfs:?}; db={dbs}", bad.unwrap_or_default()));
+            // a bare `NULL` in a SELECT list makes a Null-typed column; the unanalysed logical plan that
+            // `DataFrame::schema()` reports then disagrees with what is executed (finding H2)
+            let cat = if sql.contains("NULL AS k") { "null-typed-column" } else { "typed" };
+            run.oracle(bad.is_none(), &format!("C30 dataframe-schema-vs-batches {cat} :: {sql}"), &format!("{}; declared {dfs:?}; db={dbs}", bad.unwrap_or_default()));
         }
     }
     // ---- (N) every node of the physical plan, executed on a fresh plan instance
